@@ -12,6 +12,7 @@ CONSTANTS
   CallbackOwnOnly = TRUE
   RemoveCancels = TRUE
   CycleSkipsLocked = TRUE
+  OfferSkipsLocked = TRUE
 CONSTRAINT AtMostOneNegotiation
 CONSTRAINT SlotsTrackLive
 CONSTRAINT QuietNoTasks
